@@ -191,6 +191,24 @@ impl Exec {
                 }
                 Ok(Out::Walk(items))
             }
+            Op::WalkAfter { p, muts } => {
+                let it = self.path(p).map_err(v)?.walk_dir().map_err(v)?;
+                for m in muts {
+                    let _ = self.exec_inner(m);
+                }
+                let mut items = vec![];
+                for x in it {
+                    match x {
+                        Ok(c) => items.push(Ok(c.as_str().to_string())),
+                        Err(e) => items.push(Err(err_info(&e))),
+                    }
+                    if items.len() > 10_000 {
+                        items.push(Err(ErrInfo { class: ErrClass::Other, path: String::new(), display: "walk does not terminate".into(), io_only: true }));
+                        break;
+                    }
+                }
+                Ok(Out::Walk(items))
+            }
             Op::CreateDir(p) => self.path(p).map_err(v)?.create_dir().map(|_| Out::Unit).map_err(v),
             Op::CreateDirAll(p) => self.path(p).map_err(v)?.create_dir_all().map(|_| Out::Unit).map_err(v),
             Op::RemoveFile(p) => self.path(p).map_err(v)?.remove_file().map(|_| Out::Unit).map_err(v),
